@@ -40,11 +40,42 @@ def _elem_sources(fn, defs):
     return out
 
 
+def _is_nonempty_test(e):
+    t = norm(e)
+    return (isinstance(e, ast.Attribute) and e.attr == "size") or \
+        t.startswith("len(") or (
+            isinstance(e, ast.Compare) and len(e.ops) == 1 and
+            isinstance(e.ops[0], (ast.Gt, ast.NotEq)) and
+            (norm(e.left).endswith(".size") or
+             norm(e.left).startswith("len(")) and
+            const_int(e.comparators[0]) == 0)
+
+
+def _guards_with_nonempty(fnode):
+    """raise_guards, plus: `if x.size and <cmp>: raise` - for a non-empty x
+    the comparison is false on the fall-through path (for an empty one there
+    is nothing to compare)."""
+    from .core import stmts_of as _so, block_always_raises as _bar
+    from .dataflow import holds as _holds
+    out = list(raise_guards(fnode))
+    seen = {id(g) for g, _ in out if _}
+    for st in _so(fnode):
+        if isinstance(st, ast.If) and not st.orelse and _bar(st.body) and \
+                isinstance(st.test, ast.BoolOp) and \
+                isinstance(st.test.op, ast.And):
+            rest = [v for v in st.test.values if not _is_nonempty_test(v)]
+            if len(rest) == 1 and len(rest) < len(st.test.values):
+                atoms = _holds(rest[0], False)
+                if atoms:
+                    out.append((st, atoms))
+    return out
+
+
 def _all_guard_atoms(fn):
     """Atoms of every raise-guard, including those whose comparison sits in a
     generator expression (names bound by the generator are resolved by the
     caller through local_defs, which includes comprehension targets)."""
-    out = list(raise_guards(fn.node))
+    out = list(_guards_with_nonempty(fn.node))
     # guards that sit in a local helper called as a statement
     # (`self._check(x, n)`): the helper's fall-through atoms with its
     # parameters replaced by the call's arguments
@@ -68,7 +99,7 @@ def _all_guard_atoms(fn):
         for k in call.keywords:
             if k.arg in hp:
                 table[k.arg] = k.value
-        for g, atoms in raise_guards(h.node):
+        for g, atoms in _guards_with_nonempty(h.node):
             new_atoms = []
             for a in atoms:
                 l = _Subst(table).visit(_cp.deepcopy(a.left))
@@ -781,3 +812,45 @@ def _can_reach_minus_one(expr):
         if isinstance(n, ast.BinOp) and isinstance(n.op, ast.Sub):
             return True
     return False
+
+
+def reduction_with_initial_guard(repo, col, short="mesh"):
+    """`max(indices, initial=K) >= count`: for an empty index array the
+    reduction is K, so the guard compares K with the count - and rejects a
+    valid empty mesh (count 0) unless it also requires the array to be
+    non-empty."""
+    rule = "E-BOUND.strict-index.empty"
+    m = repo.module(short)
+    n = 0
+    from .core import block_always_raises as _bar
+    for fn in m.functions.values():
+        for st in stmts_of(fn.node):
+            if not (isinstance(st, ast.If) and _bar(st.body)):
+                continue
+            tests = [st.test]
+            conj = False
+            if isinstance(st.test, ast.BoolOp) and \
+                    isinstance(st.test.op, ast.And):
+                tests = list(st.test.values)
+                conj = any(_is_nonempty_test(v) for v in tests)
+            for t in tests:
+                if not (isinstance(t, ast.Compare) and len(t.ops) == 1):
+                    continue
+                for side in (t.left, t.comparators[0]):
+                    init = [k for c in ast.walk(side)
+                            if isinstance(c, ast.Call)
+                            for k in c.keywords if k.arg == "initial"]
+                    if not init:
+                        continue
+                    k0 = const_int(init[0].value)
+                    n += 1
+                    bad = not conj and k0 is not None and k0 >= 0 and \
+                        isinstance(t.ops[0], (ast.GtE, ast.LtE))
+                    col.add(rule, fn, norm(t)[:70], not bad, "" if not bad
+                            else "for an empty array `%s` is %d, and the "
+                            "guard then compares %d with the bound: valid "
+                            "data with no elements and a bound of 0 (a mesh "
+                            "with no vertices and no triangles) is rejected"
+                            % (norm(side)[:50], k0, k0), node=st)
+    col.add(rule, m.short + ":module", "%d reductions with initial= in "
+            "raising guards" % n, True, "", nontrivial=False)
